@@ -408,7 +408,7 @@ func instGoTest(seq []instEvent, v instViol, on int) string {
 	}
 
 	switch v.Check.M {
-	case "VerifCheck", "VerifDump", "AdminUser", "AdminGroup", "create", "hand":
+	case "VerifCheck", "VerifDump", "create", "hand":
 	default:
 		stmt(on, v.Check, true)
 	}
@@ -667,7 +667,7 @@ func runInstances(tier string, rep *kf.Reporter, deadline time.Time) (partResult
 	res.Extra["inst_transitions_with_oracle_failure"] = violating
 	res.Extra["inst_max_instances_alive"] = maxInst
 	res.Assumptions = []string{
-		"instances part: every identity manager a history makes stays referenced to the end of the history and is compared with its own copy of the reference model after every letter (full state check: every name of the pools, every id in range, the four maps); a letter addressed to the second instance before one exists is not a transition",
+		"instances part: every identity manager a history makes stays referenced to the end of the history and is compared with its own copy of the reference model after every letter (full state check: every name of the pools, every id in range, the accessors AdminUser/AdminGroup, the four maps); a letter addressed to the second instance before one exists is not a transition",
 		"instances part: explored in one goroutine; the parallel replay of the sequential part is sound only if instances share no state, which is what this part decides first (if it reports anything the sequential part runs on one worker)",
 		"instances part: state deduplication over (how each instance was made, its model state, its VerifDump) of all instances in order of creation; state outside the instances is not part of the key",
 	}
